@@ -226,13 +226,15 @@ func TestE2ETrace(t *testing.T) {
 	n := envInt("VERIF_N", 12)
 	o := newOut()
 	defer o.close()
-	// progress watchdog on the wall clock, outside the synctest bubbles: a case normally takes milliseconds (all waiting is
-	// virtual time); if one does not finish, some goroutine of the code under test is stuck in a way virtual time
-	// cannot resolve — report what the case was doing and stop at once instead of waiting for the test timeout
+	// progress watchdog outside the synctest bubbles. No wall-clock limit decides anything (a busy machine or slow disk only
+	// means more waiting): a case is reported as stuck only when that is proven by state (watchdog_test.go) — 60 s of the
+	// process's own CPU time without a finished case (a case needs milliseconds of CPU), or two identical all-blocked
+	// goroutine dumps with nothing runnable, nothing in a system call or I/O, and no CPU use in between.
 	var progress atomic.Int64
 	stopWatch := make(chan struct{})
 	go func() {
-		last, lastChange := int64(-1), time.Now()
+		last := int64(-1)
+		w := newStuckWatch(60 * time.Second)
 		for {
 			select {
 			case <-stopWatch:
@@ -240,15 +242,18 @@ func TestE2ETrace(t *testing.T) {
 			case <-time.After(500 * time.Millisecond):
 			}
 			if p := progress.Load(); p != last {
-				last, lastChange = p, time.Now()
-			} else if time.Since(lastChange) > 10*time.Second {
+				last = p
+				w = newStuckWatch(60 * time.Second)
+				continue
+			}
+			if why := w.proven(); why != "" {
 				e2eNow.Lock()
 				what := e2eDoing
 				e2eNow.Unlock()
-				o.pf("HANG case %d made no progress for 10 s of wall time while: %s\n", last+1, what)
+				o.pf("HANG case %d is stuck (%s) while: %s\n", last+1, why, what)
 				o.pf("END\n")
 				o.close()
-				fmt.Fprintln(os.Stderr, "HANG in e2e case", last+1, what)
+				fmt.Fprintln(os.Stderr, "HANG in e2e case", last+1, why, what)
 				os.Exit(0)
 			}
 		}
